@@ -129,7 +129,7 @@ def file_key(path):
     return os.path.splitext(os.path.basename(path or ""))[0]
 
 
-def observe_parse(main_path, trad=False, timeout_s=10, wall_backstop_s=900):
+def observe_parse(main_path, trad=False, timeout_s=20, wall_backstop_s=900):
     """Parses in-process; returns (proto|None, outcome event).
 
     'never hangs' is observed as a limit on the CPU time the parse may use (ITIMER_VIRTUAL counts the
@@ -149,6 +149,12 @@ def observe_parse(main_path, trad=False, timeout_s=10, wall_backstop_s=900):
 
     def on_wall(signum, frame):
         raise _WallBackstop()
+    # the cyclic garbage collector runs inside whatever allocates: with millions of harness objects alive (the
+    # thorough tier keeps tens of thousands of traces) one full collection costs seconds of CPU -- it must not be
+    # charged to the parse that happened to trigger it
+    import gc
+    gc_was = gc.isenabled()
+    gc.disable()
     old_v = signal.signal(signal.SIGVTALRM, on_cpu)
     old_a = signal.signal(signal.SIGALRM, on_wall)
     signal.setitimer(signal.ITIMER_VIRTUAL, timeout_s)
@@ -177,6 +183,8 @@ def observe_parse(main_path, trad=False, timeout_s=10, wall_backstop_s=900):
         signal.alarm(0)
         signal.signal(signal.SIGVTALRM, old_v)
         signal.signal(signal.SIGALRM, old_a)
+        if gc_was:
+            gc.enable()
 
 
 def all_protos(proto, acc=None, seen=None):
@@ -223,7 +231,7 @@ def observe_accepted(proto, want=("msgs", "consts", "refs", "lines")):
                                 evs.append({"ev": "Const", "file": f, "name": name, "vt": "int", "v": v})
                         else:
                             evs.append({"ev": "Const", "file": f, "name": name, "vt": "str",
-                                        "v": list(str(v).encode("utf8"))})
+                                        "v": list(str(v).encode("utf8", "surrogatepass"))})
                     if "lines" in want:
                         evs.append({"ev": "DefLine", "file": f, "path": path + [name], "line": m.lineno})
                 elif isinstance(m, Alias):
